@@ -36,6 +36,7 @@ structure CRow where
   xmltag : Option String     -- _xmltag
   required : List String     -- union of `_required_attrs` over the MRO
   mro : List String          -- module.qualname of every class in the MRO (self first)
+  built : Option String := none   -- `_xtype.build_xtype(cls)`; none = it raises TypeError (module below no xtype anchor)
 deriving DecidableEq, Repr
 
 /-- the kinds whose mutation methods `Model/Accessor.lean` implements -/
